@@ -821,6 +821,50 @@ func genFields(r *hx.Rand) {
 	fieldsCase(fs, []string{hx.Pick(r, []string{",", " ", ", ", " ,"}), hx.Pick(r, []string{",", " "})})
 }
 
+// sessionCase: ONE ProjectionParser receives a sequence of accepted and rejected expressions; every
+// call's outcome (verdict, error offset and class, field names, values of plain fields, what an
+// implied fixed-order filter keeps) must equal the outcome of the same expression on a fresh parser.
+// (.config / .fullname VALUES are left out: their cross-projection exclusions belong to C08.)
+func projOutcome(pp *benchproc.ProjectionParser, e string) string {
+	star, _ := benchproc.NewFilter("*")
+	p, err := pp.Parse(e, star)
+	if err != nil {
+		return errObs(err)
+	}
+	res := mkRes("Foo/size=4k-8", "a", "1", "b", "2", "goos", "linux", "k", "x/y")
+	key := p.Project(res)
+	var parts []string
+	for _, f := range p.Fields() {
+		v := "-"
+		if !f.IsTuple && f.Name != ".fullname" {
+			v = hx.HexS(key.Get(f))
+		}
+		parts = append(parts, hx.HexS(f.Name)+"="+v)
+	}
+	return "ok:" + strings.Join(parts, "+") + ":" + matchAll(star, res) + matchAll(star, mkRes("Bar", "a", "9", "goos", "plan9"))
+}
+
+func sessionCase(exprs []string) {
+	if mine() {
+		cid := id - 1
+		hx.Printf("case %d kind=session exprs=%s tag=session\n", cid, hx.HexListS(exprs))
+		guarded(cid, func(out *strings.Builder) {
+			var shared benchproc.ProjectionParser
+			var sh, fr []string
+			for _, e := range exprs {
+				sh = append(sh, projOutcome(&shared, e))
+				var fresh benchproc.ProjectionParser
+				fr = append(fr, projOutcome(&fresh, e))
+			}
+			fmt.Fprintf(out, "sobs %d shared=%s fresh=%s\n", cid, strings.Join(sh, ";"), strings.Join(fr, ";"))
+		})
+	}
+}
+
+var sessionPool = []string{"a", "b@alpha", "goos@(linux)", "a@(1 2)", "a@(9)", "b@fixed", "b@\"fixed\"", "a@bogus", "k@\"\"", ".unit", ".unit@alpha",
+	".config", ".config@(x)", ".config@alpha", ".fullname", ".fullname@(Foo)", ".name,/size", "/size@num", "a@(", "a@()", "\"x", "\"\"", ",a", "a,,b",
+	"a b", "k@(x/y z)", "goos@num,b", "b@first", "a@(1 2),b@fixed", "pkg", "a@alpha@num", "(a)"}
+
 func unqCase(text string) {
 	if !mine() {
 		return
@@ -968,6 +1012,13 @@ func main() {
 			case "bare":
 				t, _ := hx.Field(l, "w")
 				bareCase(string(hx.UnHex(t)))
+			case "session":
+				t, _ := hx.Field(l, "exprs")
+				var es []string
+				for _, b := range hx.UnHexList(t) {
+					es = append(es, string(b))
+				}
+				sessionCase(es)
 			case "fields":
 				t, _ := hx.Field(l, "text")
 				exprCase(string(hx.UnHex(t)), "replay")
@@ -1077,6 +1128,18 @@ func main() {
 	}
 	for i, n := 0, hx.N(1500, 30000); i < n; i++ {
 		genFields(r)
+	}
+
+	// 0f. one ProjectionParser across accepted and rejected expressions vs a fresh parser per call
+	sessionCase([]string{"a@(1 2)", "b@fixed", "b@fixed"})
+	sessionCase([]string{".unit", "a", ".config@(x)", ".config", "a@bogus", "a@alpha"})
+	sessionCase([]string{"a@(", "a@(1 2)", "\"x", "goos@(linux)", "b@\"fixed\""})
+	for i, n := 0, hx.N(800, 15000); i < n; i++ {
+		var es []string
+		for j := 3 + r.Intn(8); j > 0; j-- {
+			es = append(es, hx.Pick(r, sessionPool))
+		}
+		sessionCase(es)
 	}
 
 	// 1. exhaustive over the special alphabet
